@@ -1,6 +1,8 @@
 #!/bin/bash
 # For every seeded change: apply its patch to /repo, run the check(s) recorded as catching
 # it in meta.json (quick tier), undo the patch.  Prints one line per seeded change.
+# runs against patched trees must not leave their evidence behind
+EVSAVE=/tmp/ev.save.$$; rm -rf "$EVSAVE"; cp -r /verif/evidence "$EVSAVE"; trap 'rm -rf /verif/evidence; mv "$EVSAVE" /verif/evidence' EXIT
 cd /verif || exit 2
 OUT=/verif/seeded/regression.txt; : > "$OUT"
 for d in seeded/*/; do
